@@ -222,3 +222,46 @@ PROPS["C05"] = dict(
              "surrogate:pairing-fault", "audit:escape-table-entries", "every_u16", "every_byte"],
     assumptions=["reference decoder jm::ref_string written from RFC 8259 section 7"],
 )
+
+# ------------------------------------------------------------------------------------------------ C10
+PROPS["C10"] = dict(
+    title="On-demand lookup equals full parsing plus pointer lookup",
+    rule=("valid texts: 20 hand-built hazard shapes (empty containers followed by siblings, escaped/duplicate keys, strings holding "
+          "brackets/quotes/backslashes) x pad 0..63 x blank runs up to 200 bytes; generated documents biased to those hazards x 4 "
+          "pads; paths: every existing path (<=64 per text) and for each a family of non-resolving ones (missing key, key "
+          "prefix/extension, index=size, size+1, size+k, -1, INT_MAX, wrong-kind step, step past a scalar). Oracle per (text,path): "
+          "GetOnDemand succeeds iff the path resolves in the reference tree (first match for duplicate keys); slice inside the input "
+          "and its reference parse equals the resolved value; ParseOnDemand document (read through accessors) equals it; otherwise "
+          "error + empty slice + ParseOnDemand error. Input is an exact heap copy (ASan co-observes C11). distinct = hash(text,path)"),
+    runs=[
+        dict(name="asan-hsw", src="ondemand_harness.cpp", cfg="asan-hsw", env=ASAN_ENV, args=["--prop", "C10"]),
+        dict(name="asan-wsm", src="ondemand_harness.cpp", cfg="asan-wsm", env=ASAN_ENV, args=["--prop", "C10"]),
+        dict(name="prod-dyn", src="ondemand_harness.cpp", cfg="prod-dyn", env={}, args=["--prop", "C10"]),
+    ],
+    require=["path:resolves", "path:does-not-resolve", "path:through-duplicate-key", "path:through-escaped-key", "path:index-into-empty-array",
+             "path:negative-index", "path:wrong-kind-step", "path:missing-key", "path:index-beyond-end", "ParseOnDemand-calls"],
+    assumptions=["reference parser + reference path resolution (first matching member)"],
+)
+
+# ------------------------------------------------------------------------------------------------ C11
+PROPS["C11"] = dict(
+    title="On-demand scanning of arbitrary unpadded input stays inside the input",
+    rule=("byte strings: all of length<=2, every prefix of generated documents, 1-3 random mutations, truncated literals/tokens ending "
+          "exactly at the end of buffers of block-edge lengths (0,1,15-17,31-33,63-67,127-130), hostile shapes, blank runs straddling "
+          "the space skipper's 64-byte cache near the end of input; 3 paths each (empty, key, index, nested, negative, escaped key); "
+          "placements: exact heap block (ASan builds), ending on the last mapped byte and starting right after an unmapped page "
+          "(production builds); the same bytes through ParseOnDemand, UpdateLazy (both roles) and the undeclared-key skip of "
+          "ParseSchema; oracle: no ASan report / no fault, success => slice inside input and offset<=len, error => empty slice; "
+          "distinct = hash of the bytes"),
+    runs=[
+        dict(name="asan-hsw", src="ondemand_harness.cpp", cfg="asan-hsw", env=ASAN_NOLEAK_ENV, args=["--prop", "C11"]),
+        dict(name="asan-wsm", src="ondemand_harness.cpp", cfg="asan-wsm", env=ASAN_NOLEAK_ENV, args=["--prop", "C11"]),
+        dict(name="prod-hsw", src="ondemand_harness.cpp", cfg="prod-hsw", env={}, args=["--prop", "C11"]),
+        dict(name="prod-wsm", src="ondemand_harness.cpp", cfg="prod-wsm", env={}, args=["--prop", "C11"]),
+        dict(name="prod-dyn", src="ondemand_harness.cpp", cfg="prod-dyn", env={}, args=["--prop", "C11"]),
+    ],
+    require=["on-demand-calls-on-arbitrary-bytes", "result:success", "result:error", "placement:ends-on-last-mapped-byte",
+             "placement:starts-after-unmapped-page", "placement:exact-heap-block", "UpdateLazy-calls", "ParseSchema-undeclared-skip-calls",
+             "length:0", "length:block-edge(15-17,31-33,63-67,127-130)"],
+    assumptions=["an out-of-bounds read is observable only when it reaches the ASan red zone (exact heap block) or the PROT_NONE page"],
+)
